@@ -179,7 +179,7 @@ func c08Fixed(c *Ctx) ([]*zr.Program, []string) {
 }
 
 func checkC08(c *Ctx) {
-	c.rule = "hand-written: a declared property whose name a built-in value uses for a computed or internal property (自身, 长度, 文本, 内容, …) is read, written and kept apart per object like any other; hand-written multi-file programs: objects of an imported type created by the importer (constructor uses its module's variables / helpers, importer has names of the same spelling, selective import, factory vs direct creation, thrown imported exception type, relay module); programs: (a) fixed families: every (declared arity 0..4 x given argument count 0..5 x call form) with a display probe in every argument and a display as first body statement (a count mismatch must be an error with no body effect); object families (independent instances, default-property copies, constructor/method arity, unknown method/property/function, 其 outside a method), text-method chains, self and mutual recursion to depth 5000; (b) random programs with 0-3 methods (arity 0-3, recursion), 0-2 types (default properties incl. collections, constructors, methods using 其), calls nested in arguments, 得到 on both call forms. Oracle: reference evaluator (value + ordered display trace). distinct_nontrivial = distinct (family / feature set, outcome kind)"
+	c.rule = "hand-written: a declared property whose name a built-in value uses for a computed or internal property (自身, 长度, 文本, 内容, …) is read, written and kept apart per object like any other; hand-written multi-file programs: objects of an imported type created by the importer (constructor uses its module's variables / helpers, importer has names of the same spelling, selective import, factory vs direct creation, thrown imported exception type, relay module, methods / type methods / constructors of an imported module that hold nested definitions and are called several times); programs: (a) fixed families: every (declared arity 0..4 x given argument count 0..5 x call form) with a display probe in every argument and a display as first body statement (a count mismatch must be an error with no body effect); object families (independent instances, default-property copies, constructor/method arity, unknown method/property/function, 其 outside a method), text-method chains, self and mutual recursion to depth 5000; (b) random programs with 0-3 methods (arity 0-3, recursion), 0-2 types (default properties incl. collections, constructors, methods using 其), calls nested in arguments, 得到 on both call forms. Oracle: reference evaluator (value + ordered display trace). distinct_nontrivial = distinct (family / feature set, outcome kind)"
 	c.assumptions = []string{"method bodies use only their own parameters/locals and module-level definitions (U1)", "何为 getters and 此 are not exercised (U5)"}
 	rng := c.Rand("c08")
 	progs, shapes := c08Fixed(c)
@@ -270,6 +270,9 @@ func checkC08(c *Ctx) {
 			{"thrown-imported-exception-type", mf("导入“库”\n如何试？\n\t抛出欠费异常：7！\n\n\t拦截欠费异常：\n\t\t输出【其内容，其额】\n输出（试）\n"), `list[text("欠费"),num(70)]`},
 			{"created-inside-importer-method-and-loop", mf("导入“库”\n如何批量？\n\t输入数\n\t令和 = 0\n\t以序遍历【1，2，3】：\n\t\t令户 = （新建账户：“批”、数 + 序）\n\t\t和 = 和 + 户之余额\n\t输出 和\n输出（批量：1）\n"), `num(90)`},
 			{"constructor-arity-through-importer", mf("导入“库”\n如何试？\n\t令户 = （新建账户：“甲”）\n\t输出 户之余额\n\n\t拦截异常：\n\t\t输出 “refused”\n输出（试）\n"), `text("refused")`},
+			{"nested-definitions-in-imported-function-called-twice", map[string]string{"main.zn": "导入“库二”\n输出【（求阶乘和：3），（求阶乘和：4），（求阶乘和：3）】\n", "库二.zn": "如何求阶乘和？\n\t输入数\n\t如何阶乘？\n\t\t输入甲\n\t\t如果 甲 <= 1：\n\t\t\t输出 1\n\t\t输出 甲 * （阶乘：甲 - 1）\n\t令和 = 0\n\t令次 = 1\n\t每当 次 <= 数：\n\t\t和 = 和 + （阶乘：次）\n\t\t次 = 次 + 1\n\t输出 和\n"}, `list[num(9),num(33),num(9)]`},
+			{"nested-definitions-in-imported-type-method-and-constructor", map[string]string{"main.zn": "导入“库三”\n令甲 = （新建计：1）\n令乙 = （新建计：2）\n输出【甲之数，乙之数，以甲（加倍），以甲（加倍），以乙（加倍）】\n", "库三.zn": "定义计：\n\t其数 = 0\n\t如何加倍？\n\t\t如何双？\n\t\t\t输入甲\n\t\t\t输出 甲 * 2\n\t\t其数 = （双：其数 + 1）\n\t\t输出 其数\n如何新建计？\n\t输入初\n\t如何规整？\n\t\t输入甲\n\t\t输出 甲 + 100\n\t其数 = （规整：初）\n"}, `list[num(101),num(102),num(204),num(410),num(206)]`},
+			{"nested-type-in-imported-function-called-twice", map[string]string{"main.zn": "导入“库四”\n输出【（造：“咪”），（造：“喵”），（造：“咪”）】\n", "库四.zn": "如何造？\n\t输入名字\n\t定义猫：\n\t\t其名 = “无”\n\t如何新建猫？\n\t\t输入名\n\t\t其名 = 名\n\t输出（新建猫：名字）之名\n"}, `list[text("咪"),text("喵"),text("咪")]`},
 			{"imported-through-relay-module", map[string]string{"main.zn": "导入“中转”\n输出（经手：6）\n", "中转.zn": "导入“库”\n令费率 = 3\n如何经手？\n\t输入数\n\t令户 = （新建账户：“转”、数）\n\t输出【户之余额，费率】\n", "库.zn": lib}, `list[num(60),num(3)]`},
 		})
 	}
